@@ -263,8 +263,7 @@ Section EndFinal.
         destruct (starts_with slashes line).
         * cbn [rbind]. destruct (buf ++ line) as [|x b0] eqn:EB; [destruct buf; destruct line; try discriminate; congruence|].
           destruct (parse (x :: b0)); cbn [error_from rbind]; intros H; inversion H.
-        * replace (length buf + S n) with (length (buf ++ line)) by (rewrite app_length, Len; reflexivity).
-          apply IH.
+        * apply IH.
       + cbn [rbind]. intros H. inversion H.
   Qed.
 
@@ -349,3 +348,42 @@ Proof. unfold check_c14p. apply (list_eqb_eq obs_eqb obs_eqb_eq). reflexivity. Q
 
 Lemma check_c14p_0 expected o : check_c14p expected 0 o = check_c14 expected o.
 Proof. reflexivity. Qed.
+
+(* ---- wave 3: check_same_chunkings / check_count ---- *)
+
+Lemma check_same_chunkings_spec seqs :
+  check_same_chunkings seqs = true <-> exists h t, seqs = h :: t /\ Forall (eq h) t.
+Proof.
+  destruct seqs as [|h t]; cbn [check_same_chunkings].
+  - split; [discriminate|intros (h & t & H & _); discriminate].
+  - rewrite forallb_forall. split.
+    + intros H. exists h, t. split; [reflexivity|]. apply Forall_forall. intros x Hx.
+      apply (list_eqb_eq obs_eqb obs_eqb_eq). apply H, Hx.
+    + intros (h' & t' & E & F). inversion E; subst. intros x Hx.
+      apply (list_eqb_eq obs_eqb obs_eqb_eq). rewrite Forall_forall in F. apply F, Hx.
+Qed.
+
+Lemma check_count_spec post : forall n o,
+  check_count n post o = true <->
+  exists rs, length rs = n /\ o = map BRec rs ++ BEnd :: repeat BEnd post.
+Proof.
+  assert (NoRec : forall (x : obs) (t : list obs) rs n,
+            length rs = S n -> x :: t = map BRec rs ++ BEnd :: repeat BEnd post -> exists r, x = BRec r).
+  { intros x t rs n L E. destruct rs as [|r rs]; [discriminate|]. simpl in E. exists r. congruence. }
+  induction n as [|n IH]; intros o; cbn [check_count].
+  - destruct o as [|x t].
+    + split; [discriminate|]. intros (rs & L & E). destruct rs; discriminate.
+    + destruct x as [r|e| | |];
+        try (split; [discriminate|]; intros (rs & L & E); destruct rs; [simpl in E; congruence|discriminate]).
+      rewrite (list_eqb_eq obs_eqb obs_eqb_eq). split.
+      * intros ->. exists []. split; reflexivity.
+      * intros (rs & L & E). destruct rs; [|discriminate]. simpl in E. congruence.
+  - destruct o as [|x t].
+    + split; [discriminate|]. intros (rs & L & E). destruct rs; discriminate.
+    + destruct x as [r|e| | |];
+        try (split; [discriminate|]; intros (rs & L & E); destruct (NoRec _ _ _ _ L E) as [r0 Hr0]; discriminate).
+      rewrite IH. split.
+      * intros (rs & L & ->). exists (r :: rs). split; [simpl; congruence|reflexivity].
+      * intros (rs & L & E). destruct rs as [|r0 rs]; [discriminate|]. simpl in L, E.
+        exists rs. split; congruence.
+Qed.
